@@ -5,7 +5,7 @@
 From Coq Require Import List ZArith.
 From IGP Require Import Base.Str Base.Outcome Model.Tree Model.DoV Proofs.DoVProof Gen.Wiring Tie.C20_tie.
 Import ListNotations.
-Open Scope Z_scope.
+Local Open Scope Z_scope.
 
 (* every node: the value computed by the code's algorithm is the value of the recurrence *)
 Theorem C20_node : forall n, dov_wf n = true -> node_cx dov_W n = Ok (dov_node n).
